@@ -52,6 +52,19 @@ type Case struct {
 	EntityID string `json:"entity_id"`
 	SSO      string `json:"sso"` // IdP SSO endpoint (both bindings), may carry a query
 	SLO      string `json:"slo"` // IdP SLO endpoint (both bindings), may carry a query
+
+	// Prior: messages created earlier on the SAME ServiceProvider value, each after setting its
+	// SignatureMethod (a public field an application may change, e.g. when rotating algorithms).
+	Prior []Prior `json:"prior,omitempty"`
+	// AuthnContext / ForceAuthn: optional request content that must be inside the signed element.
+	AuthnContext string `json:"authn_context,omitempty"` // "" | class ref
+	ForceAuthn   string `json:"force_authn,omitempty"`   // "" | true | false
+}
+
+// Prior is one earlier creation on the same SP.
+type Prior struct {
+	Method string `json:"method"`
+	Msg    string `json:"msg"`
 }
 
 var keys = []string{"rsa1024", "sp", "rsa3072", "rsa4096", "spec", "p384", "p521"}
@@ -178,6 +191,17 @@ func gen(t *rapid.T) Case {
 	case "artifact":
 		c.Artifact = rapid.OneOf(rapid.StringMatching(`[A-Za-z0-9+/]{20,60}={0,2}`), xgen.TextNonEmpty()).Draw(t, "artifact")
 	}
+	if rapid.IntRange(0, 2).Draw(t, "hasprior") == 0 {
+		all := append(append(append([]string{}, rsaMethods...), ecMethods...), unknownMethods...)
+		n := rapid.IntRange(1, 3).Draw(t, "nprior")
+		for i := 0; i < n; i++ {
+			c.Prior = append(c.Prior, Prior{Method: rapid.SampledFrom(all).Draw(t, "priormethod"), Msg: rapid.SampledFrom(msgs).Draw(t, "priormsg")})
+		}
+	}
+	if rapid.IntRange(0, 2).Draw(t, "hasctx") == 0 {
+		c.AuthnContext = rapid.SampledFrom([]string{"urn:oasis:names:tc:SAML:2.0:ac:classes:PasswordProtectedTransport", "urn:x:a&b<c>", "x"}).Draw(t, "ctx")
+	}
+	c.ForceAuthn = rapid.SampledFrom([]string{"", "", "true", "false"}).Draw(t, "force")
 	return c
 }
 
@@ -192,6 +216,19 @@ func mustURL(s string) url.URL {
 }
 
 func buildSP(c Case) *saml.ServiceProvider {
+	sp := buildSP0(c)
+	if c.AuthnContext != "" {
+		sp.RequestedAuthnContext = &saml.RequestedAuthnContext{Comparison: "exact", AuthnContextClassRef: c.AuthnContext}
+	}
+	switch c.ForceAuthn {
+	case "true", "false":
+		b := c.ForceAuthn == "true"
+		sp.ForceAuthn = &b
+	}
+	return sp
+}
+
+func buildSP0(c Case) *saml.ServiceProvider {
 	k := fix.Get(c.Key)
 	return &saml.ServiceProvider{
 		EntityID: c.EntityID, Key: k.Key, Certificate: k.Cert, SignatureMethod: c.Method,
@@ -547,6 +584,24 @@ func check(c Case) pbt.Result {
 	}
 
 	sp := buildSP(c)
+	for _, pr := range c.Prior {
+		pc := c
+		pc.Method, pc.Msg = pr.Method, pr.Msg
+		if pc.Artifact == "" {
+			pc.Artifact = "AAQAAMFbLinlXaCM+FIxiDwGOLAy2T71gbpO7ZhNzAgEANlB90ECfpNEVLg="
+		}
+		sp.SignatureMethod = pr.Method
+		_ = run(sp, pc) // outcome of earlier creations is not judged here
+	}
+	if len(c.Prior) > 0 {
+		classes = append(classes, "sequence-on-one-sp")
+		nontrivial = true
+	}
+	if c.AuthnContext != "" || c.ForceAuthn != "" {
+		classes = append(classes, "request-options")
+	}
+	sp.SignatureMethod = c.Method
+	sp.HTTPClient = nil
 	o := run(sp, c)
 	if o.pan != nil {
 		return fail(classes, "%s with key %s and method %q panics: %v", c.Msg, c.Key, c.Method, o.pan)
@@ -650,6 +705,46 @@ func enumGrid(_ string, emit func(Case)) {
 	}
 }
 
+// enumSequences: on one SP, a message under every fitting method followed by a message under every
+// other method of the same key family (and an unknown / mismatching one), for every message kind;
+// plus request options (RequestedAuthnContext, ForceAuthn) for both AuthnRequest bindings.
+func enumSequences(_ string, emit func(Case)) {
+	ep := "https://idp.example.org/saml"
+	base := func(k, m, kind string) Case {
+		return Case{Key: k, Method: m, Msg: kind, RelayState: "rs", NameID: "user@example.com", RequestID: "id-123", Artifact: "AAQAAMFbLinlXaCM+FIxiDwGOLAy2T71gbpO7ZhNzAgEANlB90ECfpNEVLg=", SSO: ep, SLO: ep}
+	}
+	for _, k := range []string{"sp", "spec"} {
+		fit, other := rsaMethods, ecMethods
+		if k == "spec" {
+			fit, other = ecMethods, rsaMethods
+		}
+		for _, first := range fit {
+			for _, second := range append(append(append([]string{}, fit...), other[1]), unknownMethods[1]) {
+				if first == second {
+					continue
+				}
+				for _, kind := range msgs {
+					c := base(k, second, kind)
+					c.Prior = []Prior{{Method: first, Msg: kind}}
+					emit(c)
+					c2 := base(k, second, kind)
+					c2.Prior = []Prior{{Method: first, Msg: "authn-redirect"}}
+					emit(c2)
+				}
+			}
+		}
+		for _, kind := range []string{"authn-redirect", "authn-post"} {
+			for _, ctx := range []string{"urn:oasis:names:tc:SAML:2.0:ac:classes:PasswordProtectedTransport", "urn:x:a&b<c>"} {
+				for _, fa := range []string{"", "true", "false"} {
+					c := base(k, fit[1], kind)
+					c.AuthnContext, c.ForceAuthn = ctx, fa
+					emit(c)
+				}
+			}
+		}
+	}
+}
+
 // enumCRText: a carriage return in every text-position content, each message kind, RSA and ECDSA.
 func enumCRText(_ string, emit func(Case)) {
 	for _, k := range []string{"sp", "spec"} {
@@ -665,13 +760,13 @@ func enumCRText(_ string, emit func(Case)) {
 
 var prop = &pbt.Prop[Case]{
 	ID: "C13",
-	Rule: "cases: signature method (8 supported URIs, 8 unknown / blank-but-set strings) x key (RSA-1024/2048/3072/4096, P-256/384/521) x message (AuthnRequest redirect/POST, LogoutRequest redirect/POST, LogoutResponse redirect/POST, ArtifactResolve bare and in its SOAP envelope) x relay states x IdP endpoints with/without a query; the complete grid is enumerated, rapid adds relay states, name IDs, request IDs, artifacts and endpoints. " +
+	Rule: "cases: signature method (8 supported URIs, 8 unknown / blank-but-set strings) x key (RSA-1024/2048/3072/4096, P-256/384/521) x message (AuthnRequest redirect/POST, LogoutRequest redirect/POST, LogoutResponse redirect/POST, ArtifactResolve bare and in its SOAP envelope) x relay states x IdP endpoints with/without a query x optional request content (RequestedAuthnContext, ForceAuthn) x sequences of creations on one ServiceProvider value with SignatureMethod changed in between; the complete grid is enumerated, rapid adds relay states, name IDs, request IDs, artifacts and endpoints. " +
 		"oracle: certificate = the signing certificate in xml.Unmarshal(xml.Marshal(sp.Metadata())) (AuthnRequestsSigned must be true); redirect AuthnRequest: the query contains SAMLRequest[,RelayState],SigAlg,Signature contiguously and the signature verifies (stdlib RSA PKCS#1 v1.5 / ECDSA, DER or r||s) over exactly the octets from 'SAMLRequest=' up to '&Signature='; every other message: exactly one Signature child with the configured SignatureMethod, validated by a fresh goxmldsig context trusting only that certificate, on the bytes re-parsed from the wire; mismatching or unknown method: error and no message, never a panic. " +
 		"non-trivial: method refused, or endpoint with a query, or a relay state that needs escaping. distinct: sha256 of the JSON case.",
 	Gen:   gen,
 	Check: check,
 	Reset: fix.Reset,
-	Enums: []pbt.Enum[Case]{{Name: "method-x-key-x-message-grid", Each: enumGrid}, {Name: "carriage-return-in-text-contents", Each: enumCRText}},
+	Enums: []pbt.Enum[Case]{{Name: "method-x-key-x-message-grid", Each: enumGrid}, {Name: "carriage-return-in-text-contents", Each: enumCRText}, {Name: "sequences-on-one-sp-and-request-options", Each: enumSequences}},
 	Assumptions: []string{
 		"SignatureMethod \"\" means signing is not configured and is outside this property",
 		"SP Intermediates are not configured (not in the property's quantifier)",
